@@ -104,6 +104,10 @@ pub fn uci(thorough: bool) -> Vec<Pats> {
 pub fn uedge() -> Vec<Pats> {
     let mut v = lists(&strings(&[0x00, 0xFF], 2), 2);
     v.extend(lists(&strings(&[0x7F, 0x80], 2), 2));
+    // the two lowest and the two highest byte values (class boundaries next
+    // to the ends of the byte range)
+    v.extend(lists(&strings(&[0x00, 0x01], 2), 2));
+    v.extend(lists(&strings(&[0xFE, 0xFF], 2), 2));
     v
 }
 
